@@ -74,6 +74,7 @@ type Contract struct {
 	Properties []string
 	Trusted    bool
 	Inline     []string
+	GhostResults []string
 	PanicsOnly []string
 	StepProps  []string
 	Opaque     []string
@@ -289,6 +290,12 @@ func parseContractFile(path string, pkgPath string) ([]*Contract, []string, erro
 			cur.Properties = append(cur.Properties, strings.Fields(rest)...)
 		case "trusted":
 			cur.Trusted = true
+		case "ghostresult":
+			// opaque niladic methods whose k-th dynamic call (in execution order of
+			// the run) returns the ghost value verifrt.DynResult(method, receiver, k)
+			for _, m := range strings.Split(rest, ",") {
+				cur.GhostResults = append(cur.GhostResults, strings.TrimSpace(m))
+			}
 		case "opaque":
 			// interface methods whose dynamic calls are not resolved to the module's
 			// implementations in this verification (result arbitrary, assumed not to panic)
